@@ -71,7 +71,7 @@ Definition lewis_factor (g : gear) : res (num A) :=
       (fix find (t : list (num A * num A * num A)) : res (num A) :=
          match t with
          | [] => Err ValueError
-         | (a, _, y) :: t' => e <- q_cmp MEq pa {| qk := KAngle; qv := a; qu := "deg" |} ;; if e then Ok y else find t'
+         | (a, _, y) :: t' => e <- q_cmp MEq {| qk := KAngle; qv := a; qu := "deg" |} pa ;;   (* list.index: the tabulated angle is the left operand *) if e then Ok y else find t'
          end) worm_table
   | _ => Err AttributeError
   end.
